@@ -446,17 +446,29 @@ def tap_sepd(ctx, n_cases):
 
 # ------------------------------------------------------------------ shrinking, findings, entry points
 
-def still_fails(ctx_proto, case):
+def what_kind(what):
+    """coarse class of a violation text (shrinking must stay inside it)"""
+    return what.split(':')[0].split(' where ')[0][:60]
+
+
+def still_fails(ctx_proto, case, kind=None):
+    """the candidate still violates the property, in the same way, outside every known-finding family"""
     ctx = common.Ctx(ctx_proto.prop, ctx_proto.tier, ctx_proto.seed)
-    ctx.findings = []
     try:
-        return bool(evaluate(ctx, [case], count=False))
+        bad = evaluate(ctx, [case], count=False)
     except Exception:   # noqa: BLE001
         return False
+    for c, v in bad:
+        if any(m(c, v) for m in MATCHERS.values()):
+            continue
+        if kind is None or what_kind(v) == kind:
+            return True
+    return False
 
 
 def shrink(ctx, case, what):
     cur = json.loads(json.dumps(case))
+    kind = what_kind(what)
     changed = True
     while changed:
         changed = False
@@ -482,11 +494,10 @@ def shrink(ctx, case, what):
         for cand in cands:
             if cand.get('kind') == 'cache' and not cand['ts']:
                 continue
-            if still_fails(ctx, cand):
+            if still_fails(ctx, cand, kind):
                 cur, changed = cand, True
                 break
     c2 = common.Ctx(ctx.prop, ctx.tier, ctx.seed)
-    c2.findings = []
     bad = evaluate(c2, [cur], count=False)
     return cur, (bad[0][1] if bad else what)
 
